@@ -3,7 +3,8 @@
    protocol stops the proofs: it is checked by computation on the generated
    definitions. *)
 From Coq Require Import NArith List Bool Arith.
-From VV Require Import Cache.CacheDefs Conc.ProtoTypes Conc.ConcDefs Conc.ConcProofs Gen.CacheProto Conc.ConcGenDefs.
+From VV Require Import Cache.CacheDefs Cache.TableTypes Cache.CacheGenDefs Gen.CacheTable Cache.CacheGenDefs2 Cache.CacheGen.
+From VV Require Import Conc.ProtoTypes Conc.ConcDefs Conc.ConcProofs Gen.CacheProto Conc.ConcGenDefs Conc.ConcLin.
 Import ListNotations.
 
 Lemma gen_ok : proto_ok gen_protos = true.
@@ -61,3 +62,26 @@ Lemma any_no_data_race : forall progs sched t1 t2,
   Forall (fun p => wlb None false p = true /\ pairs_ok p = true) progs ->
   race (run sched (init progs)) t1 t2 = false.
 Proof. intros progs sched t1 t2 H. exact (inv_no_race _ _ t1 t2 (reachable_inv progs sched H)). Qed.
+
+(* linearisation for the regenerated protocol *)
+Lemma gen_linearisation : forall bits opss sched,
+  let s := fst (irun opss sched (init (gen_progs bits opss), [])) in
+  let l := snd (irun opss sched (init (gen_progs bits opss), [])) in
+  s = run sched (init (gen_progs bits opss)) /\
+  (forall t, ops_of l t = firstn (count l t) (nth t opss [])) /\
+  (writer s = None -> agree (gseal s) (mem s) (seq_table bits l)) /\
+  (forall t th, nth_error (ths s) t = Some th ->
+     results th = seq_results bits l t \/ exists kr, seq_results bits l t = kr :: results th) /\
+  (forall t th, nth_error (ths s) t = Some th -> acts th = [] -> results th = seq_results bits l t).
+Proof. intros bits opss sched. exact (linearisation gen_protos bits gen_ok opss sched). Qed.
+
+(* the sequential cache of the linearisation is the table model of C04, as
+   regenerated from cache.cc (the now_ functions) *)
+Lemma seq_is_now : forall tb k v,
+  seq_apply tb (OInsert k v) = now_insert tb k v /\ seq_apply tb OClear = now_clear tb /\
+  seq_apply tb (OClearOne k) = now_clear_one tb k /\ find tb k = now_find tb k /\
+  seq_table 0 [] = now_fresh 0.
+Proof.
+  intros. unfold now_insert, now_clear, now_clear_one, now_fresh. rewrite gen_is_std.
+  rewrite g_insert_std, g_clear_std, g_clear_one_std, g_fresh_std, now_find_eq. repeat split; reflexivity.
+Qed.
